@@ -339,6 +339,9 @@ def remove_bn_inplace(lin: nn.Module, bn: nn.Module, fold: bool):
         raise AttributeError("BatchNorm folding requires track_running_stats = True")
     with torch.no_grad():
         lin.bn = copy.deepcopy(bn)
+        # the layer must know what was done to its weights (user-placed layers are built before
+        # the `fold_bn` option of the conversion is known): a folded BatchNorm is not applied again
+        lin.fold_bn = fold
         if fold:
             conv_w = lin.weight
             conv_b = lin.bias
